@@ -40,8 +40,14 @@ AlphaFidelityQ ==
    { E(n, "f", m, 2, c, <<>>) : n \in { <<"a">>, <<"s","a">>, <<"","a">>, <<".","s","a">>, <<"s","t","a">>, <<"..n">> }, m \in {644, 400}, c \in {0, 2} }
    \cup { E(n, "d", m, 3, 0, <<>>) : n \in {<<"s","">>, <<"s">>, <<"s","t","">>}, m \in {755, 500} }
    \cup { E(<<"s","">>, "d", 700, 5, 0, <<>>) }
-   \cup { E(n, "l", 777, 4, 0, tg) : n \in {<<"b">>, <<"s","l">>}, tg \in { <<"a">>, <<"..","a">>, <<"nowhere">> } }
+   \cup { E(n, "l", 777, 4, 0, tg) : n \in {<<"b">>, <<"s","l">>, <<"","a">>, <<"s">>}, tg \in { <<"a">>, <<"..","a">>, <<"nowhere">> } }
    \cup { E(<<"pax_global_header">>, "g", 644, 2, 0, <<>>), E(<<"a">>, "p", 644, 2, 0, <<>>), E(<<"b">>, "h", 644, 2, 0, <<"a">>) }
+
+\* --- allow-list alphabet (C04 with AllowSymlinkTarget): A/w is allow-listed ---
+MCAllowW == { <<"A","w">> }
+AlphaAllow ==
+   { E(n, "l", 777, 4, 0, tg) : n \in { <<"a">>, <<"s","a">> }, tg \in { <<"b">>, <<"..","w">>, <<"..","..","w">>, <<"..","..","w","x">>, <<"..","dx">>, <<"..","..","..","w">> } }
+   \cup { E(n, "f", 644, 2, 1, <<>>) : n \in { <<"a">>, <<"a","f">> } } \cup { E(<<"a">>, "d", 755, 3, 0, <<>>) }
 
 \* one header record per run: the arena the cases are to be replayed in
 Header == [fam |-> "unpack-h", fs0 |-> Snapshot(FS0), dst |-> Dst, sp |-> SP, allow |-> Allow]
